@@ -292,7 +292,7 @@ func c17Cases(tier string) int {
 	if tier == "thorough" {
 		return 1 + 300000
 	}
-	return 1 + 12000
+	return 1 + 40000
 }
 
 func init() {
